@@ -40,7 +40,8 @@ ASSUMPTIONS = [
     'a column name occurs once per schema; select items are column references or aliased expressions (the printed form of '
     'an expression as column name is not modelled); union operands have the same column types',
     'after distinct / dropDuplicates the row order is unspecified: such results are compared as multisets and no limit / '
-    'dropDuplicates(subset) follows them',
+    'dropDuplicates(subset) follows them, nor a second distinct / dropDuplicates when a -0.0 is present (which of two '
+    'equal rows 0.0 / -0.0 survives would depend on the unspecified order)',
     'sorted(key=..., reverse=True) is a stable descending sort (Python documentation)',
 ]
 TRUSTED = ['translator/kernels/c12.py (constant tables INTERNAL_TYPE_ORDER, sort_order strings, sort membership lists)',
@@ -441,10 +442,7 @@ def oracle(case, result):
         return None       # ill-typed probe (upper-case type letters): outside the property, correspondence only
     if isinstance(result, Err):
         return (f'chain:{_kindname(ops)}:raises', f'the chain raised {result.name}')
-    try:
-        steps = run_impl(case)
-    except Exception as e:  # pylint: disable=broad-except
-        return (f'chain:{_kindname(ops)}:raises', f'the chain raised {type(e).__name__}')
+    steps = result            # the frames the implementation returned after 0, 1, ... steps
     flags = unordered_flags(ops)
     names0 = list(t1[0])
     rows0 = [r for p in t1[2] for r in p]
@@ -743,12 +741,21 @@ class Gen:
         return (t1, t2, ops)
 
 
+def _has_negative_zero(rows):
+    return any(isinstance(v, float) and v == 0 and math.copysign(1.0, v) < 0 for r in rows for v in r)
+
+
 def in_scope(case):
     """the reference interpreter can evaluate the whole chain (no % on negative numbers ...)"""
     t1, t2, ops = case
     names, rows = list(t1[0]), [r for p in t1[2] for r in p]
+    unordered = False
     try:
         for op in ops:
+            if unordered and op[0] in (DISTINCT, DROPDUP) and _has_negative_zero(rows):
+                # which of the equal rows 0.0 / -0.0 survives depends on the (unspecified) order
+                return False
+            unordered = unordered or op_unordered(op)
             names, rows, _ = r_step(op, names, rows, t2)
             if op[0] == SELECT or op[0] == WITHCOL:
                 for r_ in rows:
